@@ -559,15 +559,22 @@ func runC05Cls(typTok, payTok string) string {
 	return strings.Join(parts, "|")
 }
 
+// c05Sync runs f with synchronous httpflv / httpts subscriber writes and restores the package defaults afterwards
+// (other properties' ops of this process read them)
+func c05Sync(f func() string) string {
+	oldTs, oldFlv := httpts.SubSessionWriteChanSize, httpflv.SubSessionWriteChanSize
+	httpts.SubSessionWriteChanSize, httpflv.SubSessionWriteChanSize = 0, 0
+	defer func() { httpts.SubSessionWriteChanSize, httpflv.SubSessionWriteChanSize = oldTs, oldFlv }()
+	return f()
+}
+
 func init() {
-	httpts.SubSessionWriteChanSize = 0
-	httpflv.SubSessionWriteChanSize = 0
-	register("c05.bcast", func(a []string) string { return runC05Bcast(a[0], a[1]) })
-	register("c05.ts", func(a []string) string { return runC05Ts(a[0]) })
-	register("c05.rtsp", func(a []string) string { return runC05Rtsp(a[0], a[1]) })
-	register("c05.dummy", func(a []string) string { return runC05Dummy(a[0], a[1], a[2]) })
+	register("c05.bcast", func(a []string) string { return c05Sync(func() string { return runC05Bcast(a[0], a[1]) }) })
+	register("c05.ts", func(a []string) string { return c05Sync(func() string { return runC05Ts(a[0]) }) })
+	register("c05.rtsp", func(a []string) string { return c05Sync(func() string { return runC05Rtsp(a[0], a[1]) }) })
+	register("c05.dummy", func(a []string) string { return c05Sync(func() string { return runC05Dummy(a[0], a[1], a[2]) }) })
 	register("c05.cls", func(a []string) string { return runC05Cls(a[0], a[1]) })
 	// aliases: the model side runs these two on the model of the pinned tree (witness replay against a lalprobe built from the pinned lal)
 	register("c05.cls0", func(a []string) string { return runC05Cls(a[0], a[1]) })
-	register("c05.bcast0", func(a []string) string { return runC05Bcast(a[0], a[1]) })
+	register("c05.bcast0", func(a []string) string { return c05Sync(func() string { return runC05Bcast(a[0], a[1]) }) })
 }
